@@ -141,6 +141,21 @@ pub fn defer_shape(tid: usize, g: &Guard, shape: usize) {
     defer_shape_inner(tid, g, shape, 0)
 }
 
+/// A deferred function that panics when it runs (after it has been counted as run). Only
+/// directed templates use it: they arrange who runs it, inside a `catch_unwind`.
+pub fn defer_panicking(tid: usize, g: &Guard) {
+    let sh = shadow();
+    let k = sh.closures.len() as u32;
+    sh.closures.push(Closure { defer_seq: sim().seq, tid, executed: 0, unprotected: false, captured_drops: 1, chain: 0, shape: 0 });
+    unsafe {
+        circ::verif::defer(g, move || {
+            ran(k, true);
+            sim().fault("panic_in_deferred_function");
+            std::panic::resume_unwind(Box::new(crate::interp::InjectedPanic));
+        })
+    }
+}
+
 fn defer_shape_inner(tid: usize, g: &Guard, shape: usize, chain: u32) {
     let sh = shadow();
     let k = sh.closures.len() as u32;
